@@ -13,7 +13,9 @@ use indexmap::IndexMap;
 use wac_parser::Document;
 use wac_types::BorrowedPackageKey;
 
-const POOL: [&str; 9] = ["c", "foo:bar/c", "foo:bar/c@1.0.0", "x:y/c", "d", "foo:bar/d", "c-d", "foo:bar/c-d", "foo:c/bar"];
+// the last two are implementation-import names (valid extern names of a component): an `@` in front of the last `/`, a
+// version inside angle brackets - neither ends with a local name
+const POOL: [&str; 11] = ["c", "foo:bar/c", "foo:bar/c@1.0.0", "x:y/c", "d", "foo:bar/d", "c-d", "foo:bar/c-d", "foo:c/bar", "url=<https://example.com/@scope/c>", "locked-dep=<foo:bar/d@1.0.0>"];
 const IDS: [&str; 3] = ["c", "d", "c-d"];
 
 fn last_segment(n: &str) -> Option<&str> {
@@ -58,24 +60,36 @@ fn exporter(names: &[&str]) -> Option<Vec<u8>> {
 #[derive(Default)]
 struct Tally { cases: u64, skipped: u64, agree: u64, findings: [u64; 3], first: [Option<String>; 3], violations: u64 }
 
+/// resolution must return, whatever the extern names are (C14): a panic is reported as a violation with the document
+fn safe_resolve<'a>(doc: &'a Document<'a>, packages: IndexMap<BorrowedPackageKey<'a>, Vec<u8>>, src: &str, set: &[&str]) -> Result<wac_parser::resolution::Resolution<'a>, wac_parser::resolution::Error> {
+    match std::panic::catch_unwind(std::panic::AssertUnwindSafe(|| doc.resolve(packages))) {
+        Ok(r) => r,
+        Err(_) => { println!("C14-BOUNDED VIOLATION: Document::resolve PANICKED; the instantiated package has the extern names {set:?}; document:\n{src}"); std::process::exit(1); }
+    }
+}
+
 fn report(t: &mut Tally, site: usize, set: &[&str], id: &str, src: &str, got: &str, want: &str) {
     if shadow_class(set, id) && got == id {
         t.findings[site] += 1;
         if t.first[site].is_none() { t.first[site] = Some(format!("externs {set:?}, `{id}`: implementation uses `{got}`, LANGUAGE.md gives `{want}`; document: {}", src.replace('\n', " "))); }
     } else {
         t.violations += 1;
+        if std::env::args().nth(2).map(|s| s == "panics-only").unwrap_or(false) { return; }
         println!("C04-BOUNDED VIOLATION: externs {set:?}, identifier `{id}`: implementation chose {got}, LANGUAGE.md gives {want}; document:\n{src}");
     }
 }
 
 fn main() {
     let max: usize = std::env::args().nth(1).and_then(|s| s.parse().ok()).unwrap_or(3);
+    // `panics-only` (used by the C14 check): the name comparison belongs to C04; only a panic is reported
+    let panics_only = std::env::args().nth(2).map(|s| s == "panics-only").unwrap_or(false);
     let sites = ["inferred-argument", "named-argument", "access-expression"];
     let mut t = Tally::default();
     for mask in 1u32..(1 << POOL.len()) {
         if mask.count_ones() as usize > max { continue; }
         let set: Vec<&str> = (0..POOL.len()).filter(|i| mask & (1 << i) != 0).map(|i| POOL[i]).collect();
-        let (Some(sock), Some(exp)) = (socket(&set), exporter(&set)) else { t.skipped += 1; continue; };
+        let Some(sock) = socket(&set) else { t.skipped += 1; continue; };
+        let exp = if set.iter().any(|n| n.contains("=<")) { None } else { exporter(&set) };   // None: some name of the set is not a legal EXPORT name (only the import sites are run)
         for id in IDS {
             let want = doc_name(&set, id);
             // ---- sites 0 and 1: `new t:p { id, ... }` and `new t:p { id: v, ... }`
@@ -87,7 +101,7 @@ fn main() {
                 packages.insert(BorrowedPackageKey::from_name_and_version("t:p", None), sock.clone());
                 packages.insert(BorrowedPackageKey::from_name_and_version("x:y", None), plug());
                 t.cases += 1;
-                match doc.resolve(packages) {
+                match safe_resolve(&doc, packages, &src, &set) {
                     Ok(res) => {
                         let g = res.graph();
                         let local = if site == 0 { id } else { "v" };
@@ -105,12 +119,13 @@ fn main() {
                 }
             }
             // ---- site 2: `i.id`
+            let Some(exp) = exp.as_ref() else { continue; };
             let src = format!("package test:doc;\nlet i = new t:q {{}};\nlet a = i.{id};\nexport a as out;\n");
             let doc = Document::parse(&src).unwrap();
             let mut packages: IndexMap<BorrowedPackageKey, Vec<u8>> = IndexMap::new();
             packages.insert(BorrowedPackageKey::from_name_and_version("t:q", None), exp.clone());
             t.cases += 1;
-            match doc.resolve(packages) {
+            match safe_resolve(&doc, packages, &src, &set) {
                 Ok(res) => {
                     let g = res.graph();
                     let out = g.get_export("out").expect("export");
@@ -128,6 +143,7 @@ fn main() {
             }
         }
     }
+    if panics_only { println!("C14-NAMES-PANICS ok {{\"bounded\": true, \"max_subset_size\": {max}, \"evaluations\": {}, \"distinct_nontrivial\": {}, \"pool\": {:?}}}", t.cases, t.cases, POOL); std::process::exit(0); }
     for s in 0..3 {
         if let Some(f) = &t.first[s] { println!("FINDING {}-direct-name-shadows-unique-path {} cases, e.g. {}", sites[s], t.findings[s], f); }
     }
